@@ -13,7 +13,7 @@ import (
 
 func init() {
 	register(&Property{
-		ID: "C17",
+		ID:          "C17",
 		Explanation: "Decided for all paths: each of the three run loops (follower, candidate, leader) has a receive case for every request queue and for shutdownCh; whatever a loop receives is answered on every path of its arm or handed to a function/goroutine whose own summary is 'answers or parks on every path' (dispatchLogs parks every future in the in-flight list, verifyLeader answers or registers, appendConfigurationEntry answers or dispatches, the transfer goroutine answers on every exit), and every parking structure has frozen drain sites that answer all elements (commit arm, step-down exit, user restore); every API-side enqueue of a future sits in a select that can escape through shutdownCh or default; deferError.respond is idempotent and Error() selects on ShutdownCh; every future that can sit in a buffered queue when the loops exit must carry a ShutdownCh – six (function, future type) pairs do not, listed as known findings.",
 		NotDecided:  "the time bound ('completes within bounded time while running'): no static argument bounds scheduling or replication latency.",
 		RuleText:    "C17.R1 channel-set agreement between the three loops; R2 per-arm answer-or-hand-off automata plus callee summaries; R3 select-shape rule on every API enqueue; R4 shutdown-escape rule on buffered queues (known findings); R5 shape of deferError.respond/Error.",
